@@ -177,6 +177,20 @@ def check_lookup(spec, ctx):
             ctx.fail(f"clamping below the range gives {got}, expected 0", spec, int(got), 0, kind="clamp")
         elif exp == "above" and int(got) not in (n - 1, n):
             ctx.fail(f"clamping above the range gives {got}, expected {n - 1} or {n}", spec, int(got), [n - 1, n], kind="clamp")
+    # a window cut out of the array that was just queried answers by ITS coordinates
+    if n >= 4:
+        sub = arr.isel(time=slice(1, n - 1))
+        sc = coords[1 : n - 1]
+        for q in (coords[0], coords[-1], sc[0], sc[-1], v):
+            e = ref_lookup(sc, float(q))
+            try:
+                g2 = int(arrays.get_coord_index(sub, "time", float(q), raise_error=False))
+            except Exception as ex:  # noqa: BLE001
+                ctx.fail(f"get_coord_index on a window raised {type(ex).__name__}", spec, repr(ex), None, kind="wrong_exception")
+                continue
+            ok = (g2 == e) if isinstance(e, int) else (g2 == 0 if e == "below" else g2 in (len(sc) - 1, len(sc)))
+            if not ok:
+                ctx.fail(f"window [1:{n - 1}] of a queried array: get_coord_index({float(q)!r}) = {g2}, its own coordinates give {e}", spec, g2, e, kind="stale_range")
 
 
 # ---------------------------------------------------------------------------------------------
